@@ -187,6 +187,7 @@ func runVariant(path string) int {
 
 func runVariantChild(v *variantSpec) variantResult {
 	cmd := exec.Command(selfExe(), "-variant", v.Path, "-repo", *flagRepo, "-verif", *flagVerif)
+	cmd.Env = append(os.Environ(), "GOMAXPROCS=4")
 	var out, errb bytes.Buffer
 	cmd.Stdout, cmd.Stderr = &out, &errb
 	if err := cmd.Run(); err != nil {
